@@ -54,6 +54,9 @@ const REFUSE: [&str; 12] = [
     "300 K -> {s} {s}", "300 K -> {s}/2", "3 m -> {s}", "300 K -> {s} + 1", "3 s {s}", "300 K -> 1 {s}",
 ];
 
+/// Operands that already carry a dimension: refused under a scale operator whatever follows.
+const DIMMED: [&str; 4] = ["(3 kg)", "3 m", "(5 K)", "(2 °C)"];
+
 pub struct C10 {
     fams: Fams,
     xs: Vec<(String, Rat)>,
@@ -83,6 +86,7 @@ impl C10 {
         fams.add("(x <s1>) -> <s2> for all ordered spelling pairs", vec![n, s, s]);
         fams.add("chains of three conversions", vec![n, 6, 6, 6]);
         fams.add("refusals", vec![REFUSE.len() as u64, s]);
+        fams.add("dimensioned operand under <s1>, converted to <s2>", vec![DIMMED.len() as u64, s, s]);
         C10 { fams, xs, ctx: Lazy::new() }
     }
 }
@@ -109,7 +113,7 @@ impl Space for C10 {
         Meta {
             id: "C10",
             level: "exploration",
-            rule: "rational x (boundary set: 0, +-1, 32, 100, -273.15, -459.67, -500, 1/3, -22/7, a 21-digit fraction, 1e20, ...; thorough adds the grid p/q, |p|<=40, q in {1,2,3,7,10,97}) x all 26 spellings of the six scales: `x <s>` against hard-coded textbook affine maps; `(x <s1>) -> <s2>` for all 26x26 ordered spelling pairs (36 scale pairs, incl. same-scale round trips); chains of three conversions over all 6^3 scale triples; 12 refusal shapes x 26 spellings (dimensioned operand, scale inside a compound target, trailing text after a scale target, base modifier, non-temperature source). Non-trivial = all; distinct by query text".into(),
+            rule: "rational x (boundary set: 0, +-1, 32, 100, -273.15, -459.67, -500, 1/3, -22/7, a 21-digit fraction, 1e20, ...; thorough adds the grid p/q, |p|<=40, q in {1,2,3,7,10,97}) x all 26 spellings of the six scales: `x <s>` against hard-coded textbook affine maps; `(x <s1>) -> <s2>` for all 26x26 ordered spelling pairs (36 scale pairs, incl. same-scale round trips); chains of three conversions over all 6^3 scale triples; 12 refusal shapes x 26 spellings (dimensioned operand, scale inside a compound target, trailing text after a scale target, base modifier, non-temperature source); 4 dimensioned operands under every spelling converted to every spelling (26x26, incl. the same scale). Non-trivial = all; distinct by query text".into(),
             assumptions: vec!["textbook constants: 273.15, 459.67, 5/9, 5/4, 40/21 & 7.5, 373.15 & 2/3, 100/33".into()],
             exhaustive: true,
             extra: json!({"families": self.fams.summary(), "spellings": SPELL.iter().map(|s| s.0).collect::<Vec<_>>(), "refusal_shapes": REFUSE}),
@@ -124,6 +128,7 @@ impl Space for C10 {
             0 => format!("{} {}", self.xs[d[0] as usize].0, SPELL[d[1] as usize].0),
             1 => format!("({} {}) -> {}", self.xs[d[0] as usize].0, SPELL[d[1] as usize].0, SPELL[d[2] as usize].0),
             2 => format!("{} {} -> {} -> {} (chained)", self.xs[d[0] as usize].0, CANON[d[1] as usize], CANON[d[2] as usize], CANON[d[3] as usize]),
+            4 => format!("{} {} -> {}", DIMMED[d[0] as usize], SPELL[d[1] as usize].0, SPELL[d[2] as usize].0),
             _ => REFUSE[d[0] as usize].replace("{s}", SPELL[d[1] as usize].0),
         }
     }
@@ -199,6 +204,17 @@ impl Space for C10 {
                     }
                 }
             }
+            4 => match eval_q(ctx, &q) {
+                Err(QueryError::Conformance(_)) => out.outcome = "refused (Conformance)".into(),
+                Err(_) => out.outcome = "refused".into(),
+                Ok(r) => {
+                    out.outcome = "accepted".into();
+                    out = out.viol(
+                        format!("scale operator accepted on a dimensioned operand: `{} {{s1}} -> {{s2}}`", DIMMED[d[0] as usize]),
+                        format!("`{}` -> {}", q, r),
+                    );
+                }
+            },
             _ => {
                 let shape = REFUSE[d[0] as usize];
                 match eval_q(ctx, &q) {
